@@ -108,11 +108,11 @@ func (server *Server) Start() error {
 	}
 
 	if server.IsPortEnabled() {
-		go server.serve()
+		go server.serve(server.portListener)
 	}
 
 	if server.IsTLSPortEnabled() {
-		go server.tlsServe()
+		go server.tlsServe(server.tlsPortListener, server.tlsConfig)
 	}
 
 	return nil
@@ -205,11 +205,13 @@ func (server *Server) close() error {
 	return nil
 }
 
-// serve handles client connections.
-func (server *Server) serve() error {
-	defer server.close()
+// serve handles client connections of the specified listener.
+func (server *Server) serve(l net.Listener) error {
+	if l != nil {
+		// Closes only the listener of this loop; a restarted server has new ones.
+		defer l.Close()
+	}
 
-	l := server.portListener
 	for {
 		if l == nil {
 			break
@@ -225,10 +227,13 @@ func (server *Server) serve() error {
 	return nil
 }
 
-// tlsServe handles client connections with TLS.
-func (server *Server) tlsServe() error {
-	defer server.close()
-	l := server.tlsPortListener
+// tlsServe handles client connections of the specified listener with TLS.
+func (server *Server) tlsServe(l net.Listener, tlsConfig *tls.Config) error {
+	if l != nil {
+		// Closes only the listener of this loop; a restarted server has new ones.
+		defer l.Close()
+	}
+
 	for {
 		if l == nil {
 			break
@@ -238,16 +243,21 @@ func (server *Server) tlsServe() error {
 			return err
 		}
 
-		tlsConn := tls.Server(conn, server.tlsConfig)
-		if err := tlsConn.Handshake(); err != nil {
-			return err
-		}
-		tlsState := tlsConn.ConnectionState()
-
-		go server.receive(tlsConn, &tlsState)
+		go server.tlsReceive(tls.Server(conn, tlsConfig))
 	}
 
 	return nil
+}
+
+// tlsReceive performs the TLS handshake and handles the client connection.
+// A failed or stalled handshake only affects its own connection.
+func (server *Server) tlsReceive(tlsConn *tls.Conn) error {
+	if err := tlsConn.Handshake(); err != nil {
+		log.Error(err)
+		return errors.Join(err, tlsConn.Close())
+	}
+	tlsState := tlsConn.ConnectionState()
+	return server.receive(tlsConn, &tlsState)
 }
 
 // receive handles a client connection.
